@@ -41,8 +41,9 @@ func init() {
 				Rule: "case = one concurrent run on one cache (LRU store behind a serialisation-checking proxy, or - a quarter of the recorded histories - the plain cache a user builds: no proxy, no eviction callback; 3-5 keys so that at most 5 heap entries exist and finding F1 cannot occur; limit 2-4 with unit sizes or limit 4-8 with sizes 0-3). " +
 					"(a) linearizability cases: 2-4 goroutines x 4-8 ops of Has/Get/Put/Remove/Len/Size/Clear, call/return stamped from one atomic counter at the client boundary, unique value id per Put, checked with porcupine against the reference LRU (no partitioning: eviction/Len/Size/Clear couple the keys), then a final Clear and the exactly-once accounting of the eviction log; " +
 					"(b) stress cases: 2-8 goroutines x 150-400 ops with goroutine-local results only (no harness synchronisation that could hide a race), an observer goroutine probing Size() and the accounting hook, run under the race detector and plain. (c) large-cache cases: a cache of 257..4097 unit entries is cleared while 2-4 observers call Len/Size (and optionally one Put races): every observation must be explained by Clear being one atomic step, and every entry must be reported evicted exactly once. (d) high-rate invariant cases without recording: a key that is only ever replaced must always be reported present; after a goroutine's own Clear its private key must be absent. GOMAXPROCS in {1,2,4,16} by block; random yields before calls and inside the proxy/size function/eviction callback. " +
+					"(e) independent caches: 2-8 caches that share nothing, each built and used by one goroutine, busy at the same time for thousands of operations; every answer of each is compared with its own reference LRU as in a sequential history (also under the race detector). " +
 					"distinct = hash(per-client op lists, set of overlapping op pairs) = distinct interleavings observed; non-trivial = at least one pair of conflicting operations (same key, or one of them Len/Size/Clear/evicting Put) overlapped in real time",
-				Required:     []string{"lin_histories", "lin_overlapping_conflicting_pairs", "lin_histories_with_eviction_and_overlap", "stress_rounds", "stress_ops", "store_proxy_calls", "observer_probes", "evictions_logged", "porcupine_ok", "large_clear_cases", "large_clear_observations", "invariant_cases", "invariant_ops", "histories_on_plain_cache", "histories_with_sizes_beyond_2_to_the_31", "monotone_observation_cases"},
+				Required:     []string{"lin_histories", "lin_overlapping_conflicting_pairs", "lin_histories_with_eviction_and_overlap", "stress_rounds", "stress_ops", "store_proxy_calls", "observer_probes", "evictions_logged", "porcupine_ok", "large_clear_cases", "large_clear_observations", "invariant_cases", "invariant_ops", "histories_on_plain_cache", "histories_with_sizes_beyond_2_to_the_31", "monotone_observation_cases", "independent_cache_rounds"},
 				Assumptions:  []string{"sequential specification = reference LRU of C08; key space <= 5 so that the heap never has more than 5 entries and known finding F1/F2 cannot influence results", "the race detector only sees accesses that actually overlapped without an intervening happens-before edge", "porcupine v1.3.0 is trusted as the linearizability decision procedure (60 s timeout => inconclusive)"},
 				CoverPkgs:    []string{"github.com/creachadair/mds/cache"},
 				CoverAnchors: []string{"cache/cache.go"},
@@ -964,6 +965,97 @@ func c09monotoneCase(c *fw.Ctx, r *rand.Rand) {
 	}
 }
 
+// c09independentCase: several caches that have nothing to do with each other
+// (own store, own configuration, built and used by one goroutine each) are
+// busy at the same time. Each goroutine compares every answer of its cache
+// with its own reference LRU, exactly as a sequential history; what the other
+// caches are doing must not show (and, under the race detector, must not race).
+func c09independentCase(c *fw.Ctx, r *rand.Rand) {
+	g := 2 + r.IntN(7)
+	nops := 3000 + r.IntN(6000)
+	seeds := make([]uint64, g)
+	for i := range seeds {
+		seeds[i] = r.Uint64()
+	}
+	msgs := make([]string, g)
+	var start, wg sync.WaitGroup
+	start.Add(1)
+	for w := 0; w < g; w++ {
+		wg.Add(1)
+		go func(w int) {
+			defer wg.Done()
+			defer func() {
+				if p := recover(); p != nil && msgs[w] == "" {
+					msgs[w] = fmt.Sprintf("cache %d: panic: %v", w, p)
+				}
+			}()
+			rr := rand.New(rand.NewPCG(seeds[w], 0xc09))
+			limit := int64(1 + rr.IntN(4))
+			var calls []lruEntry
+			ch := cache.New(limit, cache.LRU[int, CVal]().OnEvict(func(k int, v CVal) { calls = append(calls, lruEntry{k, v}) }))
+			ref := &lruModel{Limit: limit}
+			start.Wait()
+			for i := 0; i < nops; i++ {
+				k := rr.IntN(5)
+				calls = calls[:0]
+				switch rr.IntN(8) {
+				case 0, 1, 2:
+					v := CVal{ID: i + 1, Sz: 1}
+					got := ch.Put(k, v)
+					ok, replaced, evicted := ref.put(k, v)
+					want := len(evicted)
+					if replaced != nil {
+						want++
+					}
+					if got != ok || len(calls) != want {
+						msgs[w] = fmt.Sprintf("cache %d (limit %d), op %d: Put(%d) = %v with %d eviction callbacks %v; its own reference LRU says %v with %d (evicted %v)", w, limit, i, k, got, len(calls), calls, ok, want, evicted)
+						return
+					}
+					for j, e := range evicted {
+						if calls[len(calls)-len(evicted)+j] != e && (replaced == nil || calls[j] != e) {
+							msgs[w] = fmt.Sprintf("cache %d (limit %d), op %d: Put(%d) evicted %v; its own reference LRU evicts %v", w, limit, i, k, calls, evicted)
+							return
+						}
+					}
+				case 3, 4, 5:
+					got, gok := ch.Get(k)
+					want, wok := ref.get(k)
+					if got != want || gok != wok {
+						msgs[w] = fmt.Sprintf("cache %d (limit %d), op %d: Get(%d) = (%v, %v); its own reference LRU says (%v, %v)", w, limit, i, k, got, gok, want, wok)
+						return
+					}
+				case 6:
+					if got, want := ch.Has(k), ref.has(k); got != want {
+						msgs[w] = fmt.Sprintf("cache %d (limit %d), op %d: Has(%d) = %v; its own reference LRU says %v", w, limit, i, k, got, want)
+						return
+					}
+				default:
+					_, want := ref.remove(k)
+					if got := ch.Remove(k); got != want {
+						msgs[w] = fmt.Sprintf("cache %d (limit %d), op %d: Remove(%d) = %v; its own reference LRU says %v", w, limit, i, k, got, want)
+						return
+					}
+				}
+				if ch.Len() != len(ref.Es) || ch.Size() != ref.size() {
+					msgs[w] = fmt.Sprintf("cache %d (limit %d), after op %d: Len=%d Size=%d; its own reference LRU has %d entries of size %d", w, limit, i, ch.Len(), ch.Size(), len(ref.Es), ref.size())
+					return
+				}
+			}
+		}(w)
+	}
+	start.Done()
+	wg.Wait()
+	c.Step()
+	c.Add("independent_cache_rounds", 1)
+	c.Add("independent_cache_ops", int64(g*nops))
+	for _, m := range msgs {
+		if m != "" {
+			c.Fail(map[string]any{"phase": "independent caches busy at the same time", "caches": g, "ops_each": nops, "gomaxprocs": runtime.GOMAXPROCS(0)}, "%s", m)
+			return
+		}
+	}
+}
+
 func runC09(c *fw.Ctx) {
 	procs := []int{1, 2, 4, 16}[c.Block%4]
 	old := runtime.GOMAXPROCS(procs)
@@ -1033,6 +1125,16 @@ func runC09(c *fw.Ctx) {
 		ok, pv, stack := fw.Try(func() { c09monotoneCase(c, r) })
 		if !ok {
 			c.FailKind("panic", map[string]any{"phase": "monotone observations"}, "panic: %v\n%s", pv, stack)
+		}
+	}
+	for i := 0; i < c.Pick(8, 24); i++ {
+		if !c.Begin(1<<23 + 1000 + i) {
+			continue
+		}
+		r := c.Rng()
+		ok, pv, stack := fw.Try(func() { c09independentCase(c, r) })
+		if !ok {
+			c.FailKind("panic", map[string]any{"phase": "independent caches"}, "panic: %v\n%s", pv, stack)
 		}
 	}
 	base := 1 << 20
